@@ -342,8 +342,31 @@ func main() {
 			shrinkExternal(*bin, *prop, best.Replay, sp)
 		}
 		if code := doReplay(*bin, *prop, best.Replay, false); code == 2 {
-			fmt.Fprintf(os.Stderr, "HARNESS-TROUBLE property=%s: replay file %s does not reproduce\n", *prop, best.Replay)
-			os.Exit(2)
+			// A process death seen in a long-lived batch worker can depend on that process's
+			// state (an allocation of a garbage length fails only when the heap is already
+			// large). The fresh-process replay decides: when it shows a violation of another
+			// class, that is what is reported (with a file that replays exactly); when it shows
+			// none, the death cannot be attributed and the check reports trouble.
+			ok := false
+			if best.Outcome == "crash" {
+				if res, found := replayResult(*bin, *prop, best.Replay); found && res.Class != "" && res.Violation != "" {
+					if _, separately := byClass[res.Class]; separately && res.Class != cl {
+						fmt.Printf("  (class %s: %d worker deaths, e.g. run %d; the same case in a fresh process gives class %s, reported on its own)\n", cl, len(rs), best.Run, res.Class)
+						continue
+					}
+					if rf, err := simcore.ReadReplay(best.Replay); err == nil {
+						rf.Class, rf.Violation, rf.LogHash = res.Class, res.Violation, res.LogHash
+						rf.Write(best.Replay)
+						shrinkExternal(*bin, *prop, best.Replay, sp)
+						ok = doReplay(*bin, *prop, best.Replay, false) == 1
+						cl = rf.Class
+					}
+				}
+			}
+			if !ok {
+				fmt.Fprintf(os.Stderr, "HARNESS-TROUBLE property=%s: replay file %s does not reproduce\n", *prop, best.Replay)
+				os.Exit(2)
+			}
 		}
 		rf, _ := simcore.ReadReplay(best.Replay)
 		fmt.Printf("VIOLATION property=%s replay=%s\n", *prop, best.Replay)
@@ -651,6 +674,20 @@ func doReplay(bin, prop, path string, verbose bool) int {
 		fmt.Printf("VIOLATION property=%s replay=%s\n", prop, path)
 	}
 	return 1
+}
+
+// replayResult runs a replay file in a fresh worker process and returns the result line it printed.
+func replayResult(bin, prop, path string) (simcore.Result, bool) {
+	cmd := workerCmd(bin, prop, "VERIF_MODE=replay", "VERIF_REPLAY="+path)
+	out, _ := cmd.Output()
+	var res simcore.Result
+	found := false
+	for _, line := range strings.Split(string(out), "\n") {
+		if strings.HasPrefix(line, "R ") && json.Unmarshal([]byte(line[2:]), &res) == nil {
+			found = true
+		}
+	}
+	return res, found
 }
 
 // shrinkExternal minimises a replay file with the worker's shrink mode (one
